@@ -32,6 +32,7 @@ type scenario struct {
 	Shards   int      `json:"shards"`
 	Race     bool     `json:"race"`
 	Seq      bool     `json:"seq"`
+	Only     string   `json:"only"`
 }
 
 type violation struct {
@@ -266,6 +267,8 @@ func main() {
 			fatal("usage: vcheck replay <file>")
 		}
 		os.Exit(replay(os.Args[2]))
+	case "litmus":
+		os.Exit(litmusCmd())
 	case "list":
 		scratch, _ := os.MkdirTemp("", "varmq-verif-")
 		defer os.RemoveAll(scratch)
@@ -326,8 +329,18 @@ func check(prop, tier string) int {
 	defer os.RemoveAll(scratch)
 	bin := build(scratch, race)
 	buildS := time.Since(t0).Seconds()
+	// the shim layer is the only hand-written model: re-validate it before trusting any verdict
+	litOut, litErr := exec.Command(bin, "-litmus", filepath.Join(scratch, "litmus.json")).CombinedOutput()
+	if litErr != nil {
+		fmt.Print(string(litOut))
+		fatal("shim litmus suite failed: the scheduler model disagrees with the allowed outcome sets")
+	}
+	litLine := strings.TrimSpace(string(litOut))
 	var scs []scenario
 	for _, s := range listScenarios(bin) {
+		if s.Only != "" && s.Only != tier {
+			continue
+		}
 		if race {
 			if s.Race {
 				scs = append(scs, s)
@@ -655,6 +668,7 @@ func check(prop, tier string) int {
 		"other_property_observations":   otherProps,
 		"known_findings_hit":            knownHit,
 		"build_s":                       buildS,
+		"shim_litmus":                   litLine,
 		"race_mode":                     race,
 	}
 	if len(samples) == 0 {
@@ -734,4 +748,28 @@ func matchKnown(k []knownFinding, v violation, scn string, bound int) *knownFind
 		return f
 	}
 	return nil
+}
+
+// litmusCmd: explore the litmus programs under the shims, then run them natively and compare.
+func litmusCmd() int {
+	scratch, _ := os.MkdirTemp("", "varmq-verif-")
+	defer os.RemoveAll(scratch)
+	bin := build(scratch, false)
+	lj := filepath.Join(scratch, "litmus.json")
+	out, err := exec.Command(bin, "-litmus", lj).CombinedOutput()
+	fmt.Print(string(out))
+	if err != nil {
+		return 2
+	}
+	nat := filepath.Join(scratch, "litnative")
+	if o, err := run(filepath.Join(verifDir, "engine", "litmus", "cmd", "native"), goEnv(), "go", "build", "-o", nat, "."); err != nil {
+		fmt.Print(o)
+		return 2
+	}
+	o, err := exec.Command(nat, lj).CombinedOutput()
+	fmt.Print(string(o))
+	if err != nil {
+		return 2
+	}
+	return 0
 }
